@@ -144,11 +144,13 @@ type Case struct {
 	ViaLink bool        `json:"via_link,omitempty"`
 	// the directory handed to ExtractArchive is named relative to the working directory
 	RelExtract bool `json:"rel_extract,omitempty"`
+	// ... namely as "." from inside it
+	DotExtract bool `json:"dot_extract,omitempty"`
 }
 
-var subSurvive = ev.Register("survive", func(c Case) error { return checkSurvive(c.World, c.ViaLink, c.RelExtract) })
+var subSurvive = ev.Register("survive", func(c Case) error { return checkSurvive(c.World, c.ViaLink, c.RelExtract, c.DotExtract) })
 
-func checkSurvive(w world.World, viaLink, relExtract bool) error {
+func checkSurvive(w world.World, viaLink, relExtract, dotExtract bool) error {
 	exp := world.Reference(w, nFinders)
 	if exp.Error != "" || exp.Ambiguous {
 		ev.Label("not-judged")
@@ -182,9 +184,9 @@ func checkSurvive(w world.World, viaLink, relExtract bool) error {
 		}
 	}
 	if len(exp.Packages) >= 2 && (rich || len(exp.Selections) > 0) {
-		ev.NonTrivial(Case{w, viaLink, relExtract}, "multi-package-with-meta-links-or-registry")
+		ev.NonTrivial(Case{w, viaLink, relExtract, dotExtract}, "multi-package-with-meta-links-or-registry")
 	} else if rich || len(exp.Selections) > 0 {
-		ev.NonTrivial(Case{w, viaLink, relExtract}, "meta-links-or-registry")
+		ev.NonTrivial(Case{w, viaLink, relExtract, dotExtract}, "meta-links-or-registry")
 	}
 	root1 := run.Target
 	d1, err := describe(w, run.Bundle, root1)
@@ -216,6 +218,10 @@ func checkSurvive(w world.World, viaLink, relExtract bool) error {
 		}
 		defer os.Chdir(old)
 		extractTo = "b3"
+		if dotExtract {
+			os.Chdir(root3)
+			extractTo = "."
+		}
 	}
 	b3, err := sourcebundle.ExtractArchive(bytes.NewReader(buf.Bytes()), extractTo)
 	if relExtract {
@@ -252,7 +258,7 @@ func checkSurvive(w world.World, viaLink, relExtract bool) error {
 func TestPropSurvive(t *testing.T) {
 	ev.Check(t, subSurvive, func(t *rapid.T) Case {
 		w := world.Gen(t, world.Config{MaxRemotes: 4, MaxRegistry: 3, NFinders: nFinders, Clones: true, Meta: true, RichTrees: true, OddSubPaths: true})
-		return Case{World: w, ViaLink: rapid.IntRange(0, 3).Draw(t, "vialink") == 0, RelExtract: rapid.IntRange(0, 3).Draw(t, "relextract") == 0}
+		return Case{World: w, ViaLink: rapid.IntRange(0, 3).Draw(t, "vialink") == 0, RelExtract: rapid.IntRange(0, 3).Draw(t, "relextract") == 0, DotExtract: rapid.Bool().Draw(t, "dotextract")}
 	})
 }
 
